@@ -29,7 +29,7 @@ T = r'''----------------------------- MODULE Mrasm -----------------------------
    operand: [k |-> "r", r |-> 0..3] | [k |-> "mr", r] | [k |-> "di", r] | [k |-> "ddi", r]
           | [k |-> "mc", c |-> const] | [k |-> "c", c |-> const] | [k |-> "n", n |-> number] | [k |-> "l", l |-> cps]
    const:   [n |-> 0..255] | [l |-> cps]                                        *)
-EXTENDS Naturals, Integers, Sequences, FiniteSets, TLC
+EXTENDS Naturals, Integers, Sequences, FiniteSets, TLC, SequencesExt
 
 Blank == {32, 9}
 Digit == 48..57
@@ -46,19 +46,26 @@ Lo1(c) == IF c \in UpperA THEN c + 32 ELSE c
 Upper(w) == [k \in 1..Len(w) |-> Up1(w[k])]
 Lower(w) == [k \in 1..Len(w) |-> Lo1(w[k])]
 
-RECURSIVE SkipBl(_, _)
-SkipBl(s, i) == IF At(s, i) \in Blank THEN SkipBl(s, i + 1) ELSE i
-RECURSIVE WordEnd(_, _)
-WordEnd(s, i) == IF At(s, i) \in WordCh THEN WordEnd(s, i + 1) ELSE i
-RECURSIVE AlphaEnd(_, _)
-AlphaEnd(s, i) == IF At(s, i) \in Alpha THEN AlphaEnd(s, i + 1) ELSE i
+\* RunEnd(s, i, S): the first position k >= i with s[k] \notin S (Len(s) + 1 if there is none).  The k is unique, so the CHOOSE is
+\* well defined; TLC finds it in one ascending scan (a RECURSIVE definition costs TLC time quadratic in the length of the run).
+RunEnd(s, i, S) ==
+  IF i > Len(s) THEN i
+  ELSE CHOOSE k \in i..(Len(s) + 1) : (k = Len(s) + 1 \/ s[k] \notin S) /\ \A j \in i..(k - 1) : s[j] \in S
+SkipBl(s, i) == RunEnd(s, i, Blank)
+WordEnd(s, i) == RunEnd(s, i, WordCh)
+AlphaEnd(s, i) == RunEnd(s, i, Alpha)
 
 \* ---- numbers: by value, any number of leading zeros --------------------------------------------
 Big == 100000
 DigVal(c) == IF c \in Digit THEN c - 48 ELSE IF c \in 65..70 THEN c - 55 ELSE c - 87
-RECURSIVE ValOf(_, _, _)
-ValOf(d, base, acc) == IF d = <<>> THEN acc
-                       ELSE LET a == acc * base + DigVal(Head(d)) IN ValOf(Tail(d), base, IF a > Big THEN Big ELSE a)
+RECURSIVE ValRec(_, _, _)
+ValRec(d, base, acc) == IF d = <<>> THEN acc
+                        ELSE LET a == acc * base + DigVal(Head(d)) IN ValRec(Tail(d), base, IF a > Big THEN Big ELSE a)
+\* value of a digit string, saturated at Big: leading zeros are skipped in one scan; more than 17 significant digits exceed Big in every base
+ValOf(d, base, acc) ==
+  LET z == RunEnd(d, 1, {48})
+      r == Sub(d, z, Len(d) + 1) IN
+  IF Len(r) > 17 THEN Big ELSE ValRec(r, base, acc)
 AllIn(d, S) == \A k \in 1..Len(d) : d[k] \in S
 NotNumber == -1
 RejNumber == -2
@@ -185,17 +192,23 @@ WAUTO == @@AUTO@@
 NoComment == <<-1>>
 \* comment text after the first ";" with blanks and ";" trimmed at both ends
 TrimSet == {32, 9, 59}
-RECURSIVE TrimL(_)
-TrimL(w) == IF w # <<>> /\ Head(w) \in TrimSet THEN TrimL(Tail(w)) ELSE w
-RECURSIVE TrimR(_)
-TrimR(w) == IF w # <<>> /\ w[Len(w)] \in TrimSet THEN TrimR(Sub(w, 1, Len(w))) ELSE w
-Trim(w) == TrimR(TrimL(w))
+\* (index based: linear in the length of the comment)
+TrimL(w, i) == RunEnd(w, i, TrimSet)
+\* the last position k <= j with w[k] \notin TrimSet (0 if there is none); unique
+TrimR(w, j) == IF j < 1 THEN j
+               ELSE CHOOSE k \in 0..j : /\ k = 0 \/ w[k] \notin TrimSet
+                                        /\ k = j \/ (w[k + 1] \in TrimSet /\ \A q \in (k + 1)..j : w[q] \in TrimSet)
+\* the text of s from position a to the end of the line, trimmed at both ends (index based: only s itself is ever indexed)
+TrimAt(s, a) == LET i == TrimL(s, a)
+                    j == TrimR(s, Len(s)) IN
+                IF i > j THEN <<>> ELSE Sub(s, i, j + 1)
+Trim(w) == TrimAt(w, 1)
 
 \* the tail of a line after the label / instruction: blanks, then nothing or a comment
 TailOf(s, i) ==
   LET j == SkipBl(s, i) IN
   IF j > Len(s) THEN Ok(j, NoComment, <<>>)
-  ELSE IF At(s, j) = 59 THEN Ok(Len(s) + 1, Trim(Sub(s, j + 1, Len(s) + 1)), <<>>)
+  ELSE IF At(s, j) = 59 THEN Ok(Len(s) + 1, TrimAt(s, j + 1), <<>>)
   ELSE Rej
 
 Ins(m, ops) == [t |-> "ins", m |-> m, ops |-> ops]
@@ -300,41 +313,42 @@ ParseLine(s) ==
 
 \* ---- whole text -----------------------------------------------------------------------------------------
 \* lines are separated by LF or CRLF; a lone CR is unspecified
-RECURSIVE SplitLines(_, _, _)
-SplitLines(t, cur, acc) ==
-  IF t = <<>> THEN Append(acc, cur)
-  ELSE IF Head(t) = 10 THEN SplitLines(Tail(t), <<>>, Append(acc, cur))
-  ELSE IF Head(t) = 13 /\ Len(t) >= 2 /\ t[2] = 10 THEN SplitLines(Tail(Tail(t)), <<>>, Append(acc, cur))
-  ELSE SplitLines(Tail(t), Append(cur, Head(t)), acc)
+\* (index based: the sorted positions of the LFs cut the text; a CR directly before an LF belongs to the separator)
+SplitLines(t) ==
+  LET lf == TLCEval(SetToSortSeq({k \in 1..Len(t) : t[k] = 10}, LAMBDA a, b : a < b))
+      m == Len(lf)
+      start(i) == IF i = 1 THEN 1 ELSE lf[i - 1] + 1
+      stop(i) == IF i > m THEN Len(t) + 1
+                 ELSE IF lf[i] > start(i) /\ t[lf[i] - 1] = 13 THEN lf[i] - 1 ELSE lf[i]      \* exclusive end
+  IN TLCEval([i \in 1..(m + 1) |-> Sub(t, start(i), stop(i))])
 HasLoneCR(t) == \E k \in 1..Len(t) : t[k] = 13 /\ At(t, k + 1) # 10
 
 Shebang == @@SHEBANG@@
 \* header: "#! mrasm", optionally one blank, optionally a comment
 ParseHeader(h) ==
   IF ~StartsWith(h, Shebang) THEN [k |-> "rej", c |-> NoComment]
-  ELSE LET r0 == Sub(h, 9, Len(h) + 1)
-           r1 == IF r0 # <<>> /\ r0[1] \in Blank THEN Tail(r0) ELSE r0 IN
-       IF r1 # <<>> /\ r1[1] \in Blank THEN [k |-> "uns", c |-> NoComment]
-       ELSE IF r1 = <<>> THEN [k |-> "ok", c |-> NoComment]
-       ELSE IF r1[1] = 59 THEN [k |-> "ok", c |-> Trim(Tail(r1))]
+  ELSE LET p == IF At(h, 9) \in Blank THEN 10 ELSE 9 IN          \* position after the shebang and at most one blank
+       IF At(h, p) \in Blank THEN [k |-> "uns", c |-> NoComment]
+       ELSE IF p > Len(h) THEN [k |-> "ok", c |-> NoComment]
+       ELSE IF h[p] = 59 THEN [k |-> "ok", c |-> TrimAt(h, p + 1)]
        ELSE [k |-> "rej", c |-> NoComment]
 
 SeqToSet(q) == {q[k] : k \in 1..Len(q)}
-RECURSIVE Concat(_)
-Concat(qq) == IF qq = <<>> THEN <<>> ELSE Head(qq) \o Concat(Tail(qq))
 
 ParseText(t) ==
   IF HasLoneCR(t) THEN [k |-> "unspecified"]
   ELSE
-  LET parts0 == SplitLines(t, <<>>, <<>>)
+  LET parts0 == SplitLines(t)
       \* a text that ends with the header line still has one (empty) line after it
       parts == IF Len(parts0) = 1 THEN Append(parts0, <<>>) ELSE parts0
       hd == ParseHeader(parts[1])
-      ls == [n \in 1..(Len(parts) - 1) |-> ParseLine(parts[n + 1])]
+      ls == TLCEval([n \in 1..(Len(parts) - 1) |-> ParseLine(parts[n + 1])])
       anyRej == \E n \in 1..Len(ls) : ls[n].k = "rej"
       anyUns == \E n \in 1..Len(ls) : ls[n].k = "uns"
-      defs == Concat([n \in 1..Len(ls) |-> ls[n].defs])
-      refs == Concat([n \in 1..Len(ls) |-> ls[n].refs])
+      \* a line defines at most one name: the definitions in text order; the references only matter as a set
+      defLines == SelectSeq(ls, LAMBDA x : x.defs # <<>>)
+      defs == [n \in 1..Len(defLines) |-> defLines[n].defs[1]]
+      refset == UNION {SeqToSet(ls[n].refs) : n \in 1..Len(ls)}
   IN
   IF hd.k = "rej" THEN [k |-> "reject", why |-> "header"]
   ELSE IF hd.k = "uns" THEN [k |-> "unspecified"]
@@ -342,7 +356,7 @@ ParseText(t) ==
   ELSE IF anyUns THEN [k |-> "unspecified"]
   ELSE IF Len(defs) > 40 THEN [k |-> "reject", why |-> "toomany"]                   \* counts DEFINITIONS (also repeated names)
   ELSE IF Cardinality(SeqToSet(defs)) # Len(defs) THEN [k |-> "unspecified"]        \* duplicate definitions
-  ELSE IF \E n \in 1..Len(refs) : refs[n] \notin SeqToSet(defs) THEN [k |-> "reject", why |-> "undefined"]
+  ELSE IF \E x \in refset : x \notin SeqToSet(defs) THEN [k |-> "reject", why |-> "undefined"]
   ELSE [k |-> "accept", hc |-> hd.c, ast |-> [n \in 1..Len(ls) |-> ls[n].node]]
 Verdict(t) == ParseText(t).k
 
